@@ -79,7 +79,7 @@ theorem text_write_inert (d : Bytes) : ∀ c ∈ escape d, c ≠ 60 ∧ c ≠ 62
 
 /-- non-vacuity: a policy and an input for which tags are really written and really dropped -/
 example :
-    let p : Policy := { elsAndAttrs := [(b!"b", [])], setOfElementsAllowedWithoutAttrs := [b!"b"] }
+    let p : Policy := { initialized := true, elsAndAttrs := [(b!"b", [])], setOfElementsAllowedWithoutAttrs := [b!"b"] }
     p.sanitizeCore b!"<b>x</b><i>y</i><!-- c --><!DOCTYPE html>" = b!"<b>x</b>y" := by decide
 
 end BM.Props
